@@ -7,7 +7,7 @@ base = json.load(open('/root/.vp/BASELINE.json'))
 stable = set(base['stable_pass'])
 wt = tempfile.mkdtemp(prefix='gxv-seed-', dir='/tmp')
 os.rmdir(wt)
-subprocess.check_call(['git', '-C', '/repo', 'worktree', 'add', '--detach', wt, 'HEAD', '-q'])
+subprocess.check_call(['git', '-C', '/repo', 'worktree', 'add', '--detach', wt, os.environ.get('GXV_BASE_REV', 'HEAD'), '-q'])
 env = dict(os.environ, PYTHONPATH=f'{wt}/src', MPLBACKEND='Agg', TMPDIR=tempfile.mkdtemp(prefix='gxv-seedtmp-', dir='/tmp'))
 res = {'dir': d}
 try:
